@@ -57,6 +57,10 @@ fn random_plan(g: &mut G, allow_per_test_cfg: bool, finite_limit: bool) -> Plan 
                 expected,
                 exit_shell: g.chance(40),
             })
+        } else if r < 94 && g.chance(30) {
+            let sig = *g.pick(&[9u8, 11, 15, 6, 2, 1]);
+            let expected = *g.pick(&[128 + sig as i32, sig as i32, 255]);
+            Plan::new(Fate::DieExpecting { sig, expected })
         } else if r < 94 {
             Plan::new(Fate::Die {
                 sig: *g.pick(&[9u8, 11, 15, 6, 2, 1]),
@@ -67,6 +71,9 @@ fn random_plan(g: &mut G, allow_per_test_cfg: bool, finite_limit: bool) -> Plan 
             Plan::new(Fate::Slow {
                 ns: *g.pick(&[MS, 100 * MS, SEC, 3 * SEC, 30 * SEC, 5000 * SEC]),
             })
+        } else if r < 98 && g.chance(50) {
+            let b = *g.pick(&[300 * MS, SEC, 2 * SEC]);
+            Plan::new(Fate::LateClose { before_ns: b, after_ns: *g.pick(&[b / 2, b, 3 * b]) })
         } else if r < 98 {
             Plan::new(Fate::CloseThenLinger {
                 ns: Some(*g.pick(&[MS, SEC, 100 * SEC])),
@@ -76,7 +83,7 @@ fn random_plan(g: &mut G, allow_per_test_cfg: bool, finite_limit: bool) -> Plan 
         };
         plan.lines = g.below(5) as usize;
         if !allow_per_test_cfg
-            && (plan.cfg != TestCfg::default() || plan.fate == Fate::Detached || matches!(plan.fate, Fate::CloseThenLinger { .. }))
+            && (plan.cfg != TestCfg::default() || plan.fate == Fate::Detached || matches!(plan.fate, Fate::CloseThenLinger { .. } | Fate::LateClose { .. }))
         {
             continue;
         }
@@ -593,6 +600,7 @@ fn outcome_plans() -> Vec<(&'static str, Vec<Plan>, Vec<Fault>)> {
         ("skip", vec![Plan::new(Fate::Pass), Plan::new(Fate::Code { code: 80, expected: None, exit_shell: false })], vec![]),
         ("die-kill", vec![Plan::new(Fate::Die { sig: 9, after_lines: 1, no_expectations: false }), Plan::new(Fate::Pass)], vec![]),
         ("die-term", vec![Plan::new(Fate::Pass), Plan::new(Fate::Die { sig: 15, after_lines: 0, no_expectations: true })], vec![]),
+        ("die-kill-expecting-137", vec![Plan::new(Fate::DieExpecting { sig: 9, expected: 137 }), Plan::new(Fate::Pass)], vec![]),
         ("detached-then-pass", vec![Plan::new(Fate::Detached), Plan::new(Fate::Pass)], vec![]),
         ("detached-last", vec![Plan::new(Fate::Pass), Plan::new(Fate::WrongOutput), Plan::new(Fate::Detached)], vec![]),
         ("only-detached", vec![Plan::new(Fate::Detached), Plan::new(Fate::Detached)], vec![]),
@@ -876,7 +884,7 @@ pub fn lane_runs(seed: u64) -> Vec<Scenario> {
     let mut g = G::new(seed ^ 0x2077);
     let outcomes = outcome_plans();
     for (oname, plans, faults) in &outcomes {
-        for layout in ["front-prepend-append", "cli-prepend", "cli-append", "three-docs-mixed", "cram-only"] {
+        for layout in ["front-prepend-append", "cli-prepend", "cli-append", "front-and-cli-unsorted", "three-docs-mixed", "cram-only"] {
             let needs_md = plans.iter().any(|p| p.cfg != TestCfg::default() || p.fate == Fate::Detached);
             if needs_md && (layout == "cram-only") {
                 continue;
@@ -902,6 +910,23 @@ pub fn lane_runs(seed: u64) -> Vec<Scenario> {
                     main.prepend = vec!["pre1.md".into(), "pre2.md".into()];
                     main.append = vec!["post.md".into()];
                     docs.extend([a, b, main, c]);
+                }
+                "front-and-cli-unsorted" => {
+                    // prepend/append lists from the front-matter AND the command line, several
+                    // entries each, none of the lists in alphabetical order
+                    let mut main = mk(&mut g, &mut sim, "u/main.md", Format::Md, plans);
+                    main.prepend = vec!["z-init.md".into(), "a-configure.md".into()];
+                    main.append = vec!["t-stop.md".into(), "c-cleanup.md".into()];
+                    cli.prepend = vec!["w/y-cli-first.md".into(), "w/b-cli-second.md".into()];
+                    cli.append = vec!["w/x-cli-post.md".into(), "w/d-cli-last.md".into()];
+                    let mut others = vec![];
+                    for p in ["u/z-init.md", "u/a-configure.md", "u/t-stop.md", "u/c-cleanup.md", "w/y-cli-first.md", "w/b-cli-second.md", "w/x-cli-post.md", "w/d-cli-last.md"] {
+                        let mut d = mk(&mut g, &mut sim, p, Format::Md, &pass2[..1]);
+                        d.main = false;
+                        others.push(d);
+                    }
+                    docs.push(main);
+                    docs.extend(others);
                 }
                 "cli-prepend" | "cli-append" => {
                     let main = mk(&mut g, &mut sim, "r/main.md", Format::Md, plans);
